@@ -49,6 +49,10 @@ pub mod verif {
         NEXT_CHALLENGES.with(|q| q.borrow_mut().push_back(c));
     }
 
+    pub fn clear_challenges() {
+        NEXT_CHALLENGES.with(|q| q.borrow_mut().clear());
+    }
+
     pub(super) fn pop_challenge() -> Option<u32> {
         NEXT_CHALLENGES.with(|q| q.borrow_mut().pop_front())
     }
